@@ -192,7 +192,12 @@ def generators():
     import gen
     mods = []
     for m in sorted(pkgutil.iter_modules(gen.__path__), key=lambda x: x.name):
-        mods.append(importlib.import_module("gen." + m.name))
+        try:
+            g = importlib.import_module("gen." + m.name)
+        except Exception:   # a broken plug-in of one property must not take the others down
+            continue
+        if hasattr(g, "NAME") and hasattr(g, "generate"):
+            mods.append(g)
     return mods
 
 
